@@ -2,8 +2,11 @@ package main
 
 import (
 	"fmt"
+	"go/ast"
+	"go/token"
 	"go/types"
 	"math/big"
+	"strconv"
 	"strings"
 )
 
@@ -361,6 +364,11 @@ func (e *Engine) freshNamed(st *State, nm string, t types.Type, depth int) Value
 			sv.Names = append(sv.Names, f.Name())
 			sv.F[f.Name()] = e.freshNamed(st, nm+"."+f.Name(), f.Type(), depth+1)
 		}
+		if st != nil {
+			for _, inv := range e.typeInvTerms(sv, t, nm, 0) {
+				st.Assume(inv)
+			}
+		}
 		return sv
 	case *types.Pointer:
 		id := e.allocObj(st, e.freshNamed(st, nm, u.Elem(), depth+1))
@@ -414,9 +422,126 @@ func (e *Engine) freshSlice(st *State, nm string, elem types.Type, depth int) *S
 	if st != nil {
 		st.Assume(Le(Int(0), ln))
 	}
-	return &SliceV{Len: ln, Nil: Var(nm+".isnil", SBool), Name: nm, At: func(i *Term) Value {
+	sl := &SliceV{Len: ln, Nil: Var(nm+".isnil", SBool), Name: nm, At: func(i *Term) Value {
 		return e.elemAt(nm+".at", elem, i, depth+1)
 	}}
+	if st != nil && len(e.cs.TypeInvs) > 0 {
+		k := Var("elem?", SInt)
+		if invs := e.typeInvTerms(sl.At(k), elem, nm, 0); len(invs) > 0 {
+			st.Assume(Forall([]*Term{k}, Implies(And(Le(Int(0), k), Lt(k, ln)), And(invs...))))
+		}
+	}
+	return sl
+}
+
+// typeInvTerms: the declared type invariants of v (of type t) and of the struct fields nested in it.
+func (e *Engine) typeInvTerms(v Value, t types.Type, nm string, depth int) []*Term {
+	if depth > 4 || e.cs == nil || len(e.cs.TypeInvs) == 0 {
+		return nil
+	}
+	for _, p := range e.noInv {
+		if nm == p || strings.HasPrefix(nm, p+".") {
+			return nil
+		}
+	}
+	var out []*Term
+	sv, ok := v.(*StructV)
+	if !ok {
+		return nil
+	}
+	if n, ok := t.(*types.Named); ok && n.Obj().Pkg() != nil {
+		if ti := e.cs.TypeInvs[n.Obj().Pkg().Path()+"."+n.Obj().Name()]; ti != nil {
+			if term := simpleSpec(ti.Expr, map[string]Value{ti.Param: sv}); term != nil {
+				out = append(out, term)
+				e.trusted["type invariant of "+ti.Type+" assumed for values that enter the verified functions from outside: "+ti.Text] = true
+			}
+		}
+	}
+	if u, ok := t.Underlying().(*types.Struct); ok {
+		for i := 0; i < u.NumFields(); i++ {
+			f := u.Field(i)
+			if fv, ok := sv.F[f.Name()]; ok {
+				out = append(out, e.typeInvTerms(fv, f.Type(), nm+"."+f.Name(), depth+1)...)
+			}
+		}
+	}
+	return out
+}
+
+// simpleSpec evaluates the small expression language of type invariants (field selection on the parameter, len of
+// strings, comparisons, && || !, + -, literals) without a function context. nil if the expression is outside it.
+func simpleSpec(x ast.Expr, env map[string]Value) (res *Term) {
+	defer func() {
+		if recover() != nil {
+			res = nil
+		}
+	}()
+	var val func(x ast.Expr) Value
+	val = func(x ast.Expr) Value {
+		switch y := x.(type) {
+		case *ast.ParenExpr:
+			return val(y.X)
+		case *ast.Ident:
+			if v, ok := env[y.Name]; ok {
+				return v
+			}
+			switch y.Name {
+			case "true":
+				return True
+			case "false":
+				return False
+			}
+		case *ast.SelectorExpr:
+			return val(y.X).(*StructV).F[y.Sel.Name]
+		case *ast.BasicLit:
+			switch y.Kind {
+			case token.INT:
+				n, _ := strconv.ParseInt(y.Value, 0, 64)
+				return Int(n)
+			case token.STRING:
+				sv, _ := strconv.Unquote(y.Value)
+				return Str(sv)
+			}
+		case *ast.CallExpr:
+			if id, ok := y.Fun.(*ast.Ident); ok && len(y.Args) == 1 && id.Name == "len" {
+				return StrLen(val(y.Args[0]).(*Term))
+			}
+			if id, ok := y.Fun.(*ast.Ident); ok && len(y.Args) == 2 && id.Name == "implies" {
+				return Implies(val(y.Args[0]).(*Term), val(y.Args[1]).(*Term))
+			}
+		case *ast.UnaryExpr:
+			if y.Op == token.NOT {
+				return Not(val(y.X).(*Term))
+			}
+		case *ast.BinaryExpr:
+			a, b := val(y.X).(*Term), val(y.Y).(*Term)
+			switch y.Op {
+			case token.LAND:
+				return And(a, b)
+			case token.LOR:
+				return Or(a, b)
+			case token.EQL:
+				return Eq(a, b)
+			case token.NEQ:
+				return Not(Eq(a, b))
+			case token.LSS:
+				return Lt(a, b)
+			case token.LEQ:
+				return Le(a, b)
+			case token.GTR:
+				return Gt(a, b)
+			case token.GEQ:
+				return Ge(a, b)
+			case token.ADD:
+				return Add(a, b)
+			case token.SUB:
+				return Sub(a, b)
+			}
+		}
+		panic("unsupported")
+	}
+	t, _ := val(x).(*Term)
+	return t
 }
 
 // elemAt builds the element value `name(i)` of type t from uninterpreted
